@@ -104,8 +104,13 @@ const (
 	c02share = uint32(1480642916)
 )
 
-func c02draw(v *verifrt.T, i int) message.Ssid {
-	n := 2 + v.Choice(v.Bound("depth"), "len", i) // contract + 1..depth levels
+func c02draw(v *verifrt.T, i int) message.Ssid { return c02drawN(v, i, 0) }
+
+func c02drawN(v *verifrt.T, i int, fixed int) message.Ssid {
+	n := fixed
+	if n == 0 {
+		n = 2 + v.Choice(v.Bound("depth"), "len", i) // contract + 1..depth levels
+	}
 	f := make(message.Ssid, n)
 	for k := range f {
 		f[k] = v.U32("w", i, k)
@@ -133,7 +138,19 @@ func c02live(ops []c02op, i int) bool {
 // two real *broker.Conn values through the real pubsub service and trie. Every
 // subscribe and unsubscribe is acknowledged by the broker (OnSubscribe / OnUnsubscribe
 // ignore the boolean), so the reference is the set of (connection, filter) pairs.
-func VerifC02Book(v *verifrt.T) {
+func VerifC02Book(v *verifrt.T) { c02history(v, nil) }
+
+// VerifC02Shapes: the same oracle on longer histories of fixed shape by one connection
+// (filters still arbitrary): subscribe twice / unsubscribe once, subscribe two filters /
+// unsubscribe both, subscribe / unsubscribe / subscribe / unsubscribe - each followed by a
+// publish. These are the shapes in which duplicate and colliding filters meet the
+// per-connection bookkeeping.
+func VerifC02Shapes(v *verifrt.T) {
+	shapes := [][]int{{0, 0, 1, 2}, {0, 0, 1, 1, 2}, {0, 1, 0, 1, 2}, {0, 0, 2, 1, 2}}
+	c02history(v, shapes[v.Choice(len(shapes), "shape")])
+}
+
+func c02history(v *verifrt.T, kinds []int) {
 	svc, ps, _ := c02env()
 	nconn := v.Bound("conns")
 	conns := make([]*Conn, nconn)
@@ -142,14 +159,22 @@ func VerifC02Book(v *verifrt.T) {
 		conns[i], socks[i] = c02conn(svc, i)
 	}
 	n := v.Bound("ops")
+	if kinds != nil {
+		n = len(kinds)
+	}
 	var ops []c02op
 	for i := 0; i < n; i++ {
-		o := c02op{kind: v.Choice(3, "kind", i), who: v.Choice(nconn, "who", i), f: c02draw(v, i)}
-		if i == 0 {
-			v.Assume(o.kind == 0 && o.who == 0)
-		}
-		if i == n-1 {
-			v.Assume(o.kind == 2) // a history that does not end in a publish observes nothing new
+		var o c02op
+		if kinds != nil {
+			o = c02op{kind: kinds[i], who: 0, f: c02drawN(v, i, 3)} // contract + 2 levels: a/b and b/a collide in the XOR fold
+		} else {
+			o = c02op{kind: v.Choice(3, "kind", i), who: v.Choice(nconn, "who", i), f: c02draw(v, i)}
+			if i == 0 {
+				v.Assume(o.kind == 0 && o.who == 0)
+			}
+			if i == n-1 {
+				v.Assume(o.kind == 2) // a history that does not end in a publish observes nothing new
+			}
 		}
 		before := make([]int, nconn)
 		for c := range socks {
